@@ -243,9 +243,9 @@ theorem runProds_spec {cap : Nat} {t : Token} (ps : List Prod) {c : Ctx} {r : Ex
     (h : run (runProds cap false t ps) c = (r, c')) :
     FootB' c c' ∧ Eff cap c r c' ∧ (AR c → AR c') := by
   induction ps generalizing c with
-  | nil => rw [runProds, run_pure] at h; cases h; exact ⟨FootB'.refl _, Eff.ok_refl _ _, fun h => h⟩
+  | nil => rw [runProds, prun_pure] at h; cases h; exact ⟨FootB'.refl _, Eff.ok_refl _ _, fun h => h⟩
   | cons p ps ih =>
-    rw [runProds, run_bind] at h
+    rw [runProds, prun_bind] at h
     rcases hr : run (runProd cap false t p) c with ⟨r1, c1⟩
     rw [hr] at h
     obtain ⟨hf1, he1, ha1⟩ := runProd_spec hr
